@@ -290,6 +290,81 @@ def affine_grid():
                         yield {"shape": shape, "qtype": qn, "axis": axis, "group_size": gs, "scale": sv, "dtype": "fp32"}
 
 
+# ----------------------------------------------------------------------------- the optimizers and group() called directly
+
+def exec_optimizer(case):
+    """The validation the entry points rely on, at its source: the optimizers' own axis checks and group()'s divisor check.
+    Either ValueError, or scales (and zero-points) with exactly one value per kept index / group."""
+    out = Outcome()
+    shape, axis, gs, which, bits = case["shape"], case["axis"], case["group_size"], case["opt"], case["bits"]
+    x = tensor_for(shape, torch.float32, 11)
+    n = x.numel()
+    rank = len(shape)
+    tag = f"optimizer/{which}"
+    out.fingerprint = [shape, axis, gs, which, bits]
+    out.klass = [which, f"axis-{axis}", "grouped" if gs else "ungrouped", f"rank{rank}"]
+    out.nontrivial = axis not in (0, -1) or gs is not None
+    if which == "group":
+        from optimum.quanto.tensor.qbits.group import group
+
+        r = cut(group, x, axis, gs)
+    elif which == "absmax":
+        r = cut(AbsmaxOptimizer(), x, bits, axis)
+    else:
+        r = cut(MaxOptimizer(), x, bits, axis, gs) if gs is not None else cut(MaxOptimizer(), x, bits, axis)
+    bad_axis = axis not in ((None, 0, -1) if which == "absmax" else (0, -1))
+    per = None if bad_axis or axis is None else n // shape[axis]
+    bad_group = gs is not None and not bad_axis and (gs > per or per % gs != 0)
+    if isinstance(r, Raised):
+        if r.type != "ValueError":
+            out.fail(f"{tag}/raises:{r.type}/{'unsupported' if bad_axis or bad_group else 'supported'}", f"{shape} axis {axis} group {gs}: {r.text}")
+        elif not (bad_axis or bad_group) and rank >= 2:
+            out.fail(f"{tag}/rejected-supported", f"{shape} axis {axis} group {gs}: {r.text}")
+        return out
+    if bad_axis or bad_group:
+        out.fail(f"{tag}/accepted-unsupported/{'axis' if bad_axis else 'group-size'}", f"{shape} axis {axis} group {gs} returned {type(r).__name__}")
+        return out
+    if rank < 2:
+        return out  # rank-1 reductions are C03's subject (the whole vector is one group)
+    if which == "group":
+        want = (n // gs, gs) if axis == 0 else (gs, n // gs)
+        if tuple(r.shape) != want:
+            out.fail(f"{tag}/shape", f"group({shape}, axis {axis}, {gs}) has shape {tuple(r.shape)}, expected {want}")
+        elif sorted(r.reshape(-1).tolist()) != sorted(x.reshape(-1).tolist()):
+            out.fail(f"{tag}/values", "grouping does not preserve the multiset of values")
+        return out
+    scale, zp = (r, None) if which == "absmax" else r
+    if axis is None:
+        want = ()
+    elif gs is None:
+        want = tuple(shape[i] if i == (0 if axis == 0 else rank - 1) else 1 for i in range(rank))
+    else:
+        want = (n // gs, 1) if axis == 0 else (1, n // gs)
+    ok_shapes = {want}
+    if axis is None:
+        ok_shapes.add((1,) * rank)
+    if tuple(scale.shape) not in ok_shapes or scale.dtype != x.dtype:
+        out.fail(f"{tag}/scale-form", f"{shape} axis {axis} group {gs}: scale {tuple(scale.shape)} {scale.dtype}, expected {want}")
+    if zp is not None and (tuple(zp.shape) != tuple(scale.shape) or zp.dtype != torch.int8):
+        out.fail(f"{tag}/zeropoint-form", f"{tuple(zp.shape)} {zp.dtype}")
+    return out
+
+
+def optimizer_grid():
+    for shape in [[6], [4, 1], [1, 4], [3, 4], [4, 4], [2, 3, 4], [4, 4, 4], [2, 2, 2, 2]]:
+        n = 1
+        for s in shape:
+            n *= s
+        for axis in AXES + [3, -3]:
+            for bits in (8, 4, 2):
+                yield {"opt": "absmax", "shape": shape, "axis": axis, "group_size": None, "bits": bits}
+            for gs in [None, 1, 2, 3, 4, 5, 6, 8, 12, n, 2 * n]:
+                for bits in (4, 2):
+                    yield {"opt": "max", "shape": shape, "axis": axis, "group_size": gs, "bits": bits}
+                if gs is not None:
+                    yield {"opt": "group", "shape": shape, "axis": axis, "group_size": gs, "bits": 4}
+
+
 # ----------------------------------------------------------------------------- automatic group size
 
 def exec_group(case):
@@ -378,6 +453,8 @@ def run_weight(ctx):
 def run_quantizers(ctx):
     items = list(symmetric_grid())
     enumerate_cases(ctx, items[ctx.shard :: ctx.nshards], exec_symmetric)
+    items = list(optimizer_grid())
+    enumerate_cases(ctx, items[ctx.shard :: ctx.nshards], exec_optimizer)
     items = list(affine_grid())
     enumerate_cases(ctx, items[ctx.shard :: ctx.nshards], exec_affine, exhaustive_name="quantize_activation / SymmetricQuantizer (8-bit qtypes x axis x 9 scale shapes x 9 shapes) and AffineQuantizer (6 qtypes x axis x 11 group sizes x 4 scale shapes x 7 shapes)")
 
@@ -388,6 +465,8 @@ def run_group(ctx):
 
 
 def exec_any(case):
+    if "opt" in case:
+        return exec_optimizer(case)
     if "entry" in case:
         return exec_symmetric(case)
     if "scale" in case:
